@@ -26,6 +26,10 @@ EXHAUSTIVE_SCOPE = {"quick": "all compositions of totals 1..10 for each drawn pr
 NONTRIVIAL_FLOOR = {"quick": 500, "thorough": 5000}
 
 
+# thorough tier: coverage-guided (atheris) drive of the same generator and oracle: kind -> (shards, cases per shard)
+FUZZ = {"generated": (8, 600)}
+
+
 def plan(tier):
     return [("exhaustive", 16, 2 if tier == "quick" else 20), ("generated", 16, (1200 if tier == "quick" else 24000) // 16)]
 
